@@ -319,6 +319,12 @@ var c17Sessions = [][]string{
 		"(in-package 'user) (debug-print (secondfn A) (aux:auxfn B) (user:secondfn A))",
 	},
 	{
+		// the export form lives in another file than the definition it exports
+		"(in-package 'lib) (export 'pubfn 'pubvar)",
+		"(in-package 'lib) (defun pubfn (val) (+ val (privfn 1))) (defun privfn (val) val) (set 'pubvar 7)",
+		"(in-package 'user) (use-package 'lib) (debug-print (pubfn A) pubvar (pubfn B))",
+	},
+	{
 		"(in-package 'lib) (defun dupfn (val) (+ val 1)) (defun onlyone (val) (dupfn val))",
 		"(in-package 'lib) (defun dupfn (val) (+ val 2)) (defun onlytwo (val) (dupfn val))",
 		"(in-package 'user) (debug-print (lib:dupfn A) (lib:onlyone B) (lib:onlytwo B))",
